@@ -688,7 +688,7 @@ class Exec:
             if base.t == 'differs':
                 return SVal('fn', self.th.differs_at(self.lift(iv, 'path').t))
             if base.t == 'predicates':
-                return SVal(('seq', 'fn'), self.th.preds_at(self.lift(iv, 'path').t))
+                return SVal(('seq', 'fn'), self.th.preds_raw(self.lift(iv, 'path').t))
         raise OutOfSubset('subscript of %r' % (k,))
 
     def wrap_elem(self, ek, t):
@@ -1163,6 +1163,11 @@ class Exec:
             if c.inline:
                 return self.inline_call(c, base, args, kwargs, node, st)
             return self.apply_contract(c, base, args, kwargs, node, st)
+        if k == ('cfgattr',) and attr == 'pop' and len(node.args) == 2:
+            # removing a key from a configuration table: no effect in the value model of the tables (the table vocabulary denotes the
+            # values a lookup yields; which keys are physically present is the frame question decided by C12)
+            self.args_of(node, st)
+            return SVal(OPAQUE, 'popped')
         if k == 'map' and attr == 'keys':
             return SVal('kset', self.th.m_dom(base.t))
         if k == 'emap' and attr == 'values' and not node.args:
